@@ -61,19 +61,37 @@ def run_cli(cli, r, scen, text, lib_convert, workdir, idx):
     os.makedirs(d, exist_ok=True)
     opts, inmode, fault = scen["opts"], scen["inmode"], scen["fault"]
     argv, st = option_values(r, opts, fault)
+    # the same options in the other spellings the tool accepts: --name=value, and in any order
+    pairs = [argv[i:i + 2] for i in range(0, len(argv), 2)]
+    r.shuffle(pairs)
+    argv = []
+    for nm, v in pairs:
+        # (a value that begins with '-' is written --name=value: as a separate word the argument parser takes it for an option)
+        argv += [nm + "=" + v] if ((r.random() < 0.4 and v != "") or v.startswith("-")) else [nm, v]
     stdin = None
+    raw = text.encode("utf-8")
+    if "bad_utf8" in fault:
+        # input that is not text: a conversion cannot succeed
+        cut = r.randrange(len(raw) + 1)
+        raw = raw[:cut] + r.choice([b"\xff", b"\xc3", b"\xed\xa0\x80", b"\x80abc"]) + raw[cut:]
+    positional = []
     if inmode == "file":
         path = os.path.join(d, "in.bob")
         if "missing_file" in fault:
             path = os.path.join(d, "does-not-exist.bob")
         else:
-            with open(path, "w", encoding="utf-8") as f:
-                f.write(text)
-        argv += [path]
+            with open(path, "wb") as f:
+                f.write(raw)
+        positional = [path]
     elif inmode == "inline":
-        argv += ["-s", text.replace("\n", "\\n")]
+        positional = ["-s", text.replace("\n", "\\n")]
     else:
-        stdin = text.encode("utf-8")
+        stdin = raw
+    # the input argument before, between or after the options
+    if r.random() < 0.5:
+        argv = positional + argv
+    else:
+        argv = argv + positional
     outpath = None
     pre_sha = ""
     if "o" in opts:
@@ -85,7 +103,7 @@ def run_cli(cli, r, scen, text, lib_convert, workdir, idx):
             with open(outpath, "wb") as f:
                 f.write(b"<!-- stale output -->\n" * 2000)
             pre_sha = sha(b"<!-- stale output -->\n" * 2000)
-        argv += ["-o", outpath]
+        argv += r.choice([["-o", outpath], ["--output", outpath], ["--output=" + outpath], ["-o" + outpath]])
     p = subprocess.run([cli] + argv, input=stdin if stdin is not None else b"", stdout=subprocess.PIPE,
                        stderr=subprocess.PIPE, timeout=60)
     lib = lib_convert(text, st).encode("utf-8")
